@@ -1,0 +1,119 @@
+//go:build verif
+
+// Contracts for package input (comment-only; read by /verif/plvc).
+
+package input
+
+//@ default nonnil *Point
+//@ default nonnil *TFMeta
+
+// stored value agrees with the indexed type; field values are nil, int64, float64, bool or string
+//@ spec agree(t ast.DType, v any) bool = (t == ast.Nil && v == nil) || (t == ast.Int && typeis(v, int64)) || (t == ast.Float && typeis(v, float64))
+//@ | || (t == ast.Bool && typeis(v, bool)) || (t == ast.String && typeis(v, string))
+
+// C10: the key index (Meta) agrees with the output maps.
+//@ struct Point
+//@ props C10
+//@ invariant self.Tags != nil && self.Fields != nil && self.Meta != nil
+//@ invariant forall k string :: dom(self.Meta, k) ==> self.Meta[k] != nil && allocated(self.Meta[k]) && (self.Meta[k].PtFlag == PtField || self.Meta[k].PtFlag == PtTag)
+//@ invariant forall k string :: dom(self.Fields, k) ==> dom(self.Meta, k) && self.Meta[k].PtFlag == PtField
+//@ invariant forall k string :: dom(self.Tags, k) ==> dom(self.Meta, k) && self.Meta[k].PtFlag == PtTag
+//@ invariant forall k string :: dom(self.Fields, k) ==> agree(self.Meta[k].DType, self.Fields[k])
+//@ invariant forall j, k string :: dom(self.Meta, j) && dom(self.Meta, k) && j != k ==> self.Meta[j] != self.Meta[k]
+
+//@ typeinv[C10] mapvalues map[string]*TFMeta nonnil
+
+// pooled index entries: Get hands out an entry that no live structure refers to
+//@ extern sync.(*Pool).Get
+//@ modifies nothing
+//@ ensures p == addr(metaPool) ==> typeis(result, *TFMeta) && result.(*TFMeta) != nil && fresh(result.(*TFMeta))
+//@ ensures p == addr(pointPool) ==> typeis(result, *Point) && result.(*Point) != nil
+
+//@ extern sync.(*Pool).Put
+//@ modifies nothing
+
+//@ func GetMeta
+//@ props C10 C15
+//@ modifies nothing
+//@ ensures result != nil && fresh(result) && result.DType == dtype && result.PtFlag == ptflag
+
+//@ func PutMeta
+//@ props C10
+//@ modifies nothing
+
+//@ extern github.com/GuanceCloud/platypus/pkg/engine/runtime.Conv2String
+//@ pure
+
+//@ func (*Point).Get
+//@ props C10 C01
+//@ implements runtime.Input.Get
+//@ modifies nothing
+//@ ensures !dom(pt.Meta, key) ==> result2 != nil
+//@ ensures dom(pt.Meta, key) && pt.Meta[key].PtFlag == PtField && dom(pt.Fields, key) && pt.Meta[key].DType != ast.Nil && pt.Meta[key].DType != ast.Void ==> result2 == nil && result0 == pt.Fields[key] && result1 == pt.Meta[key].DType
+//@ ensures dom(pt.Meta, key) && pt.Meta[key].PtFlag == PtTag && dom(pt.Tags, key) && pt.Meta[key].DType != ast.Nil && pt.Meta[key].DType != ast.Void ==> result2 == nil && result1 == ast.String && typeis(result0, string) && result0.(string) == pt.Tags[key]
+//@ ensures result2 == nil && result0 != nil ==> (dom(pt.Fields, key) && result0 == pt.Fields[key]) || (dom(pt.Tags, key) && typeis(result0, string) && result0.(string) == pt.Tags[key])
+
+//@ func (*Point).Delete
+//@ props C10
+//@ modifies mapof(pt.Fields), mapof(pt.Tags), mapof(pt.Meta)
+//@ ensures !dom(pt.Fields, key) && !dom(pt.Tags, key) && !dom(pt.Meta, key)
+//@ ensures forall k string :: k != key ==> dom(pt.Fields, k) == old(dom(pt.Fields, k)) && dom(pt.Tags, k) == old(dom(pt.Tags, k)) && dom(pt.Meta, k) == old(dom(pt.Meta, k))
+//@ ensures forall k string :: k != key ==> pt.Fields[k] == old(pt.Fields[k]) && pt.Tags[k] == old(pt.Tags[k]) && pt.Meta[k] == old(pt.Meta[k])
+
+//@ func (*Point).Set
+//@ props C10
+//@ requires runtime.wfVal(value, dtype)
+//@ modifies mapof(pt.Fields), mapof(pt.Tags), mapof(pt.Meta), TFMeta.DType
+//@ ensures forall k string :: k != key ==> dom(pt.Fields, k) == old(dom(pt.Fields, k)) && dom(pt.Tags, k) == old(dom(pt.Tags, k)) && dom(pt.Meta, k) == old(dom(pt.Meta, k))
+//@ ensures forall k string :: k != key ==> pt.Fields[k] == old(pt.Fields[k]) && pt.Tags[k] == old(pt.Tags[k]) && pt.Meta[k] == old(pt.Meta[k])
+//@ ensures dom(pt.Meta, key)
+
+//@ func (*Point).SetTag
+//@ props C10
+//@ modifies mapof(pt.Fields), mapof(pt.Tags), mapof(pt.Meta), TFMeta.DType, TFMeta.PtFlag
+//@ ensures dom(pt.Tags, key) && !dom(pt.Fields, key)
+//@ ensures forall k string :: k != key ==> dom(pt.Fields, k) == old(dom(pt.Fields, k)) && dom(pt.Tags, k) == old(dom(pt.Tags, k)) && dom(pt.Meta, k) == old(dom(pt.Meta, k))
+//@ ensures forall k string :: k != key ==> pt.Fields[k] == old(pt.Fields[k]) && pt.Tags[k] == old(pt.Tags[k]) && pt.Meta[k] == old(pt.Meta[k])
+
+//@ func (*Point).Mv2Tag
+//@ props C10
+//@ modifies mapof(pt.Fields), mapof(pt.Tags), mapof(pt.Meta), TFMeta.DType, TFMeta.PtFlag
+//@ ensures !dom(pt.Fields, key)
+//@ ensures forall k string :: k != key ==> dom(pt.Fields, k) == old(dom(pt.Fields, k)) && dom(pt.Tags, k) == old(dom(pt.Tags, k)) && dom(pt.Meta, k) == old(dom(pt.Meta, k))
+
+//@ func (*Point).SetMeasurement
+//@ props C10
+//@ modifies pt.Measurement
+
+//@ func (*Point).KeyTime2Time
+//@ props C10 C12
+//@ modifies pt.Time, mapof(pt.Fields), mapof(pt.Tags), mapof(pt.Meta)
+
+//@ sweep[C10] (*Point).GetMeasurement GetPoint
+
+// the host hands in a tag map and a field map with disjoint keys and field values of the
+// supported Go types (input validity is a precondition; the property quantifies over the
+// operations that follow)
+//@ spec supportedField(v any) bool = v == nil || typeis(v, int64) || typeis(v, float64) || typeis(v, bool) || typeis(v, string)
+//@ | || typeis(v, int) || typeis(v, int8) || typeis(v, int16) || typeis(v, int32) || typeis(v, uint) || typeis(v, uint8) || typeis(v, uint16) || typeis(v, uint32) || typeis(v, uint64) || typeis(v, float32)
+
+//@ func InitPt
+//@ props C10 C15
+//@ noinv pt
+//@ requires f != nil ==> (forall k string :: dom(f, k) ==> supportedField(f[k]))
+//@ requires f != nil && t != nil ==> (forall k string :: dom(t, k) ==> !dom(f, k))
+//@ ensures result == pt && pt.Measurement == m && !pt.Drop
+//@ loop 1
+//@ invariant pt.Fields == f && f != nil && pt.Tags == t && t != nil && pt.Meta != nil && fresh(pt.Meta)
+//@ invariant forall k string :: dom(f, k) ==> supportedField(f[k])
+//@ invariant forall k string :: dom(t, k) ==> !dom(f, k)
+//@ invariant forall k string :: dom(pt.Meta, k) <==> iterseen(k)
+//@ invariant forall k string :: dom(pt.Meta, k) ==> dom(f, k) && pt.Meta[k] != nil && allocated(pt.Meta[k]) && pt.Meta[k].PtFlag == PtField && agree(pt.Meta[k].DType, f[k])
+//@ invariant forall j, k string :: dom(pt.Meta, j) && dom(pt.Meta, k) && j != k ==> pt.Meta[j] != pt.Meta[k]
+//@ loop 2
+//@ invariant pt.Fields == f && f != nil && pt.Tags == t && t != nil && pt.Meta != nil && fresh(pt.Meta)
+//@ invariant forall k string :: dom(t, k) ==> !dom(f, k)
+//@ invariant forall k string :: dom(f, k) ==> dom(pt.Meta, k) && pt.Meta[k].PtFlag == PtField && agree(pt.Meta[k].DType, f[k])
+//@ invariant forall k string :: dom(pt.Meta, k) ==> pt.Meta[k] != nil && allocated(pt.Meta[k]) && (dom(f, k) || (iterseen(k) && dom(t, k) && pt.Meta[k].PtFlag == PtTag))
+//@ invariant forall k string :: iterseen(k) ==> dom(pt.Meta, k)
+//@ invariant forall j, k string :: dom(pt.Meta, j) && dom(pt.Meta, k) && j != k ==> pt.Meta[j] != pt.Meta[k]
